@@ -1,11 +1,15 @@
 package props
 
 import (
+	"bufio"
 	"bytes"
 	"encoding/json"
 	"fmt"
+	"io"
 	"math/bits"
+	"os"
 	"strings"
+	"testing/iotest"
 
 	"verif/fitmodel"
 	"verif/vx"
@@ -89,9 +93,12 @@ func c10Expect(entry string, frame []byte) (int, int) {
 
 func runC10(w *vx.W) {
 	c10MixChains(w)
+	c10ReaderKindsFamily(w)
+	c10FileIdShapes(w)
 	thorough := !w.Quick()
-	singles := []namedStream{sMin12, sMin14, sMin14z, sAct3, sAct3BE, sSet, sMonState, sZero, sDev}
-	chains := []namedStream{sChain2, sChain2b, sChain3, sChainState, sChainState3, sChainZero, sChainDev}
+	crcStreams()
+	singles := []namedStream{sMin12, sMin14, sMin14z, sAct3, sAct3BE, sSet, sMonState, sZero, sDev, sCRC00}
+	chains := []namedStream{sChain2, sChain2b, sChain3, sChainState, sChainState3, sChainZero, sChainDev, sChainCRC0}
 	entries := []string{"Decode", "CheckIntegrity", "CheckIntegrityHeaderOnly", "DecodeHeader", "DecodeHeaderAndFileID"}
 	states := map[uint64]struct{}{}
 
@@ -318,6 +325,19 @@ func replayC10(raw json.RawMessage) (string, error) {
 	if s, ok, err := mixChainReplay(raw); ok {
 		return s, err
 	}
+	var kr c10KindReplay
+	if json.Unmarshal(raw, &kr) == nil && kr.ReaderKind == "file_id-shape" {
+		if msg := c10FileIdAgree(vx.UnHex(kr.Hex)); msg != "" {
+			return "", fmt.Errorf("%s", msg)
+		}
+		return "ok", nil
+	}
+	if json.Unmarshal(raw, &kr) == nil && kr.ReaderKind != "" {
+		if msg := c10KindCheck(kr.ReaderKind, strings.TrimSuffix(kr.Entry, "+options"), vx.UnHex(kr.Hex), kr.Frame); msg != "" {
+			return "", fmt.Errorf("%s through %s: %s", kr.Entry, kr.ReaderKind, msg)
+		}
+		return "ok", nil
+	}
 	var r c10Replay
 	if err := json.Unmarshal(raw, &r); err != nil {
 		return "", err
@@ -483,4 +503,251 @@ func c10MixChains(w *vx.W) {
 			}
 		}
 	}
+}
+
+// ---- reader kinds: the same stream (followed by a second valid file as sentinel) through the reader types callers
+// really pass — *bytes.Reader, *bytes.Buffer, *strings.Reader, *bufio.Reader (small and large buffers), *os.File,
+// io.LimitedReader, io.MultiReader over the record pieces, io.Pipe, the testing/iotest shapes — so that a fast path
+// keyed on the dynamic type or on an optional interface (io.Seeker, io.ByteReader, io.WriterTo, Len()) is
+// exercised. Oracle: same result as the plain reader, and where the reader can tell, exactly the frame consumed.
+
+type c10KindReplay struct {
+	ReaderKind string `json:"reader_kind"`
+	Stream     string `json:"stream"`
+	Hex        string `json:"stream_hex"`
+	Frame      int    `json:"frame_len"`
+	Entry      string `json:"entry"`
+}
+
+type plainReader struct {
+	b []byte
+	i int
+}
+
+func (r *plainReader) Read(p []byte) (int, error) {
+	if r.i >= len(r.b) {
+		return 0, io.EOF
+	}
+	n := copy(p, r.b[r.i:])
+	r.i += n
+	return n, nil
+}
+
+var c10ReaderKinds = []string{"bytes.Reader", "bytes.Buffer", "strings.Reader", "bufio.Reader(16)", "bufio.Reader(4096)", "bufio.Reader(65536)", "os.File", "io.LimitedReader", "io.MultiReader", "io.Pipe", "iotest.OneByteReader", "iotest.HalfReader", "iotest.DataErrReader", "io.SectionReader", "io.TeeReader"}
+
+// c10KindRun returns the observation and the number of bytes consumed (-1 when the reader cannot tell).
+func c10KindRun(kind, entry string, data []byte) (string, int, error) {
+	var r io.Reader
+	consumed := func() int { return -1 }
+	var cleanup func()
+	switch kind {
+	case "bytes.Reader":
+		br := bytes.NewReader(data)
+		r, consumed = br, func() int { return len(data) - br.Len() }
+	case "bytes.Buffer":
+		bb := bytes.NewBuffer(append([]byte{}, data...))
+		r, consumed = bb, func() int { return len(data) - bb.Len() }
+	case "strings.Reader":
+		sr := strings.NewReader(string(data))
+		r, consumed = sr, func() int { return len(data) - sr.Len() }
+	case "bufio.Reader(16)":
+		r = bufio.NewReaderSize(&plainReader{b: data}, 16)
+	case "bufio.Reader(4096)":
+		r = bufio.NewReaderSize(&plainReader{b: data}, 4096)
+	case "bufio.Reader(65536)":
+		r = bufio.NewReaderSize(&plainReader{b: data}, 65536)
+	case "os.File":
+		f, err := os.CreateTemp(os.Getenv("VX_SCRATCH"), "c10-*.fit")
+		if err != nil {
+			return "", 0, err
+		}
+		cleanup = func() { f.Close(); os.Remove(f.Name()) }
+		if _, err := f.Write(data); err != nil {
+			cleanup()
+			return "", 0, err
+		}
+		f.Seek(0, io.SeekStart)
+		r, consumed = f, func() int { o, _ := f.Seek(0, io.SeekCurrent); return int(o) }
+	case "io.LimitedReader":
+		lr := &io.LimitedReader{R: &plainReader{b: data}, N: int64(len(data))}
+		r, consumed = lr, func() int { return len(data) - int(lr.N) }
+	case "io.MultiReader":
+		var parts []io.Reader
+		for i := 0; i < len(data); i += 7 {
+			parts = append(parts, bytes.NewReader(data[i:minInt(i+7, len(data))]))
+		}
+		r = io.MultiReader(parts...)
+	case "io.Pipe":
+		pr, pw := io.Pipe()
+		go func() {
+			for i := 0; i < len(data); i += 5 {
+				if _, err := pw.Write(data[i:minInt(i+5, len(data))]); err != nil {
+					return
+				}
+			}
+			pw.Close()
+		}()
+		cleanup = func() { pr.Close() }
+		r = pr
+	case "iotest.OneByteReader":
+		pl := &plainReader{b: data}
+		r, consumed = iotest.OneByteReader(pl), func() int { return pl.i }
+	case "iotest.HalfReader":
+		pl := &plainReader{b: data}
+		r, consumed = iotest.HalfReader(pl), func() int { return pl.i }
+	case "iotest.DataErrReader":
+		r = iotest.DataErrReader(&plainReader{b: data})
+	case "io.SectionReader":
+		sr := io.NewSectionReader(bytes.NewReader(data), 0, int64(len(data)))
+		r, consumed = sr, func() int { o, _ := sr.Seek(0, io.SeekCurrent); return int(o) }
+	case "io.TeeReader":
+		var sink bytes.Buffer
+		r, consumed = io.TeeReader(&plainReader{b: data}, &sink), func() int { return sink.Len() }
+	default:
+		return "", 0, fmt.Errorf("unknown reader kind %s", kind)
+	}
+	obs := c10Obs(entry, callEntry(entry, r))
+	n := consumed()
+	if cleanup != nil {
+		cleanup()
+	}
+	return obs, n, nil
+}
+
+func c10KindCheck(kind, entry string, data []byte, frame int) string {
+	pl := &plainReader{b: data}
+	base := c10Obs(entry, callEntry(entry, pl))
+	obs, n, err := c10KindRun(kind, entry, data)
+	if err != nil {
+		return ""
+	}
+	if obs != base {
+		return fmt.Sprintf("result differs from the plain reader's: %s vs %s", trunc(obs, 200), trunc(base, 200))
+	}
+	if n >= 0 && entry != "DecodeChained" {
+		lo, hi := c10Expect(entry, data[:frame])
+		if n < lo || n > hi {
+			return fmt.Sprintf("consumed %d bytes of the reader, the frame allows %d..%d", n, lo, hi)
+		}
+	}
+	if pl.i != n && n >= 0 && entry != "DecodeHeaderAndFileID" {
+		return fmt.Sprintf("consumed %d bytes, the plain reader delivered %d", n, pl.i)
+	}
+	return ""
+}
+
+func c10ReaderKindsFamily(w *vx.W) {
+	var idx int64
+	for _, s := range []namedStream{sMin12, sAct3, sAct3BE, sSet, sDev, sZero, sBig, s4096, s8192} {
+		data := fitmodel.Concat(s.B, sMin14.B) // sentinel: a second valid file
+		for _, e := range []string{"Decode", "DecodeChained", "CheckIntegrity", "CheckIntegrityHeaderOnly", "DecodeHeader", "DecodeHeaderAndFileID", "Decode+options"} {
+			for _, kind := range c10ReaderKinds {
+				idx++
+				if !w.Mine(idx) {
+					continue
+				}
+				entry := e
+				w.Eval(2)
+				w.Trace(1)
+				w.Fam("reader-kinds", 1)
+				base := strings.TrimSuffix(entry, "+options")
+				var msg string
+				if base != entry {
+					// same obligations as the bare call
+					obs, n, err := c10KindRun(kind, entry, data)
+					if err == nil {
+						if want := c10Obs(entry, callEntry(entry, &plainReader{b: data})); obs != want {
+							msg = "result differs from the plain reader's"
+						} else if lo, hi := c10Expect(base, data[:len(s.B)]); n >= 0 && (n < lo || n > hi) {
+							msg = fmt.Sprintf("consumed %d bytes of the reader, the frame allows %d..%d", n, lo, hi)
+						}
+					}
+				} else {
+					msg = c10KindCheck(kind, entry, data, len(s.B))
+				}
+				if msg != "" {
+					w.Violation("reader-kind/"+kind, fmt.Sprintf("%s on %s through %s: %s", entry, s.Name, kind, msg), c10KindReplay{kind, s.Name, vx.Hex(data), len(s.B), entry})
+				}
+			}
+		}
+	}
+}
+
+// ---- file_id shapes: DecodeHeaderAndFileID must report the header and file_id that Decode reports, for every way
+// a file_id record can legally be written: every file_id field x every definition of the compat set (narrower and
+// wider than the profile type) x both byte orders x the boundary payloads, alone after the type field, before it,
+// and next to a second field written at another width; also as the first member of a chain.
+func c10FileIdShapes(w *vx.W) {
+	p := prof()
+	var idx int64
+	typeFd := fitmodel.FieldDef{Num: 0, Size: 1, Base: fitmodel.Enum}
+	for _, e := range p.byMesg[0] {
+		if e.Num == 0 {
+			continue
+		}
+		for _, fd := range c02Defs(e) {
+			for o := 0; o < 2; o++ {
+				big := o == 1
+				for _, pl := range c02Payloads(e, fd, big) {
+					for shape := 0; shape < 3; shape++ {
+						idx++
+						if !w.Mine(idx) {
+							continue
+						}
+						var fds []fitmodel.FieldDef
+						var payload []byte
+						switch shape {
+						case 0: // type, then the field
+							fds, payload = []fitmodel.FieldDef{typeFd, fd}, append([]byte{4}, pl...)
+						case 1: // the field, then type
+							fds, payload = []fitmodel.FieldDef{fd, typeFd}, append(append([]byte{}, pl...), 4)
+						case 2: // serial number (4 bytes of 0xA5) first, so that wider reads find non-zero leftovers
+							fds = []fitmodel.FieldDef{{Num: 3, Size: 4, Base: fitmodel.Uint32z}, typeFd, fd}
+							if e.Num == 3 {
+								continue
+							}
+							payload = append([]byte{0xA5, 0xA5, 0xA5, 0xA5, 4}, pl...)
+						}
+						d := fitmodel.Def{Local: 0, Big: big, Global: 0, Fields: fds}
+						rec := fitmodel.Data(0, payload)
+						stream := fitmodel.File(fitmodel.DefaultHeader, d.Bytes(), rec, recordDef(1, big).Bytes(), recordData(1, big, 1000000000, 60, 5))
+						w.Eval(2)
+						w.Trace(1)
+						w.Fam("file_id-shapes", 1)
+						if msg := c10FileIdAgree(stream); msg != "" {
+							w.Violation("file_id-shapes", fmt.Sprintf("file_id field %d written as base %#02x size %d (big-endian=%v, shape %d): %s", e.Num, fd.Base, fd.Size, big, shape, msg), c10KindReplay{ReaderKind: "file_id-shape", Hex: vx.Hex(stream), Frame: len(stream), Entry: "DecodeHeaderAndFileID"})
+						}
+					}
+				}
+			}
+		}
+	}
+}
+
+func c10FileIdAgree(stream []byte) string {
+	d := safeDecode(bytes.NewReader(stream))
+	hf := safeDecodeHeaderAndFileID(bytes.NewReader(stream))
+	if d.Panic != "" || hf.Panic != "" {
+		return "panic: " + d.Panic + hf.Panic
+	}
+	if d.Err != nil {
+		return "" // not an accepted file (the definition is outside what the decoder admits)
+	}
+	if hf.Err != nil {
+		return "Decode accepts the file, DecodeHeaderAndFileID fails: " + hf.Err.Error()
+	}
+	if a, b := fitmodel.DumpI(d.File.FileId), fitmodel.DumpI(hf.FileId); a != b {
+		return fmt.Sprintf("Decode reports %s, DecodeHeaderAndFileID %s", a, b)
+	}
+	if a, b := fitmodel.DumpI(d.File.Header), fitmodel.DumpI(hf.Header); a != b {
+		return fmt.Sprintf("Decode reports header %s, DecodeHeaderAndFileID %s", a, b)
+	}
+	ch := safeDecodeChained(bytes.NewReader(fitmodel.Concat(stream, sMin12.B)))
+	if ch.Err != nil || len(ch.Files) != 2 {
+		return fmt.Sprintf("as first member of a chain: %d files, err=%v", len(ch.Files), ch.Err)
+	}
+	if a, b := fitmodel.DumpI(d.File.FileId), fitmodel.DumpI(ch.Files[0].FileId); a != b {
+		return fmt.Sprintf("Decode reports %s, DecodeChained %s", a, b)
+	}
+	return ""
 }
